@@ -68,6 +68,10 @@ def tie_rule(chk, db):
 FIXTURE = os.path.join(D.VERIF, "fixtures", "iter_pos.hpp")
 
 
+META_EXTRA = 'IT3 (returned output cursor is advanced after its last write); IT4 (downward scans visit the first element); IT5 (`if constexpr` alternatives consult the same range ends).'
+META = (META[0] + " " + META_EXTRA, META[1])
+
+
 def run(chk, tier):
     db = D.load("checks")
     funcs = [f for f in db.funcs if (f["file"].startswith("_algorithm/") or f["file"].startswith("_numeric/")) and f.get("kind") == "function"]
